@@ -419,9 +419,16 @@ def run_sort(ver, tier, w, acc, g):
     for k in range(0, min(n, 4) + 1):
         for t in itertools.product(strs, repeat=k):
             sq = list(t)
+            CI = "'http://www.w3.org/2005/xpath-functions/collation/html-ascii-case-insensitive'"
             for src in ('sort($s)', "sort($s, 'http://www.w3.org/2005/xpath-functions/collation/codepoint')",
-                        'sort($s, (), function($x) { string-length($x) })'):
-                exp = sorted(sq, key=len) if 'string-length' in src else sorted(sq)
+                        'sort($s, (), function($x) { string-length($x) })',
+                        # an explicit collation WITH a key function: the collation orders the keys
+                        'sort($s, %s)' % CI, 'sort($s, %s, function($x) { $x })' % CI, 'sort($s, %s, function($x) { concat($x, "!") })' % CI,
+                        "sort($s, 'http://www.w3.org/2005/xpath-functions/collation/codepoint', function($x) { $x })"):
+                if CI in src:
+                    exp = sorted(sq, key=lambda x: ''.join(chr(ord(c) + 32) if 'A' <= c <= 'Z' else c for c in x))
+                else:
+                    exp = sorted(sq, key=len) if 'string-length' in src else sorted(sq)
                 got = SB.run_impl(ver, src, {'s': sq}, w)
                 acc.ev()
                 acc.cmp()
